@@ -3,10 +3,11 @@
  *   PATR p rows
  *   EV p row chn note ins vol fxt fxp f2t f2p      (non-empty events only)
  *   INS i nsm vol namehex | SUB i j vol pan xpo fin sid
- *   SMP i len lps lpe flg namehex datahex(<= 4096 units, "-" if none)
+ *   SMP i len lps lpe flg namehex datahex (up to 4096 frames; "md5:<hex>" of the data beyond that; "-" if none)
  *   ENDLOAD   (or LOADFAIL ret)
  */
 #include "vcommon.h"
+#include "md5.h"
 
 static void hexs(const char *s, int max) { int n = 0; while (n < max && s[n]) n++; if (!n) { putchar('-'); return; } vf_puthex((const unsigned char *)s, n); }
 
@@ -36,7 +37,9 @@ int main(void)
 		for (i = 0; i < mod->smp; i++) {
 			struct xmp_sample *s = &mod->xxs[i]; int fl = ((s->flg & XMP_SAMPLE_16BIT) ? 2 : 1) * ((s->flg & XMP_SAMPLE_STEREO) ? 2 : 1);
 			printf("SMP %d %d %d %d %d ", i, s->len, s->lps, s->lpe, s->flg); hexs(s->name, 32); putchar(' ');
-			if (s->data && s->len > 0 && s->len <= 4096) vf_puthex(s->data, (long)s->len * fl); else putchar('-');
+			if (s->data && s->len > 0 && s->len <= 4096) vf_puthex(s->data, (long)s->len * fl);
+			else if (s->data && s->len > 0) { MD5_CTX mc; unsigned char dg[16]; MD5Init(&mc); MD5Update(&mc, s->data, (unsigned long)s->len * fl); MD5Final(dg, &mc); printf("md5:"); vf_puthex(dg, 16); }
+			else putchar('-');
 			printf("\n");
 		}
 		puts("ENDLOAD"); fflush(stdout);
